@@ -3,10 +3,13 @@ package checks
 import (
 	"encoding/json"
 	"fmt"
+	"io"
 	"strings"
 
+	"go.1password.io/spg"
 	"verif/harness/core"
 	"verif/harness/ref"
+	"verif/harness/tape"
 )
 
 // ---------- C05: wordlist password structure ----------
@@ -240,6 +243,8 @@ func c05Run(c *core.Ctx) {
 			}
 		}
 	}
+	c05Recorded(c)
+	c05Faults(c)
 	// separator recipes that need retries: deviation-bounded (<= 2, thorough 3)
 	dev := 2
 	if c.Thorough() {
@@ -256,6 +261,177 @@ func c05Run(c *core.Ctx) {
 	}
 }
 
+// c05Recorded: a caller-written separator function whose i-th call returns
+// either nothing or a string unique to that call. Every pattern of empty and
+// non-empty answers over the calls is enumerated. Each gap of the password must
+// hold the answer of one particular call - the same call for every pattern,
+// whichever order the library asks in and whatever calls it makes for other
+// purposes (entropy): a gap whose source depends on the values returned is
+// not "a fresh draw from the separator function" any more. An empty answer
+// leaves its gap without a token.
+func c05Recorded(c *core.Ctx) {
+	maxL := 5
+	if c.Thorough() {
+		maxL = 7
+	}
+	wl, _ := spg.NewWordList([]string{"ab", "cd", "efg"})
+	for L := 2; L <= maxL; L++ {
+		for _, flavour := range []string{"s", "·", "--"} {
+			for _, cp := range []string{"none", "all"} {
+				if !c.Mine() {
+					continue // all patterns of one (L, flavour, scheme) in one process
+				}
+				ncall := L + 1 // up to two calls beyond the gaps
+				rpg := map[string]interface{}{"recorded": true, "length": L, "flavour": flavour, "cap": cp}
+				gkey := fmt.Sprintf("recorded L=%d %s %s", L, flavour, cp)
+				// cand[g][i]: call i can be the source of gap g in every pattern so far
+				cand := make([][]bool, L-1)
+				for g := range cand {
+					cand[g] = make([]bool, ncall+4)
+					for i := range cand[g] {
+						cand[g][i] = true
+					}
+				}
+				failed := false
+				for pat := 0; pat < 1<<uint(ncall) && !failed; pat++ {
+					var calls []string
+					r := spg.NewWLRecipe(L, wl)
+					r.Capitalize = spg.CapScheme(cp)
+					r.SeparatorFunc = func() (string, spg.FloatE) {
+						i := len(calls)
+						v := ""
+						if i >= ncall || pat>>uint(i)&1 == 1 {
+							v = fmt.Sprintf("%s%d", flavour, i)
+						}
+						calls = append(calls, v)
+						return v, 1
+					}
+					install(policyTape(func(b uint32, i int) uint32 { return uint32(i + pat) }))
+					out := runGen(r.Generate)
+					c.Count("executions", 1)
+					c.Count("recorded_separator_runs", 1)
+					key := fmt.Sprintf("%s pattern=%b", gkey, pat)
+					if !out.HasPw || out.Panic != "" {
+						c.Violation(key+" failed", "Generate failed: "+out.Err+out.Panic, rpg)
+						failed = true
+						break
+					}
+					// gaps of the returned token sequence
+					var gaps []string
+					bad := ""
+					natoms := 0
+					for i := 0; i < len(out.Toks); i++ {
+						t := out.Toks[i]
+						if t.T == 1 {
+							natoms++
+							if natoms > 1 && len(gaps) < natoms-1 {
+								gaps = append(gaps, "")
+							}
+							continue
+						}
+						if natoms == 0 || len(gaps) >= natoms || i == len(out.Toks)-1 || t.V == "" {
+							bad = fmt.Sprintf("separator token %q at token position %d is leading, trailing, doubled or empty", t.V, i)
+							break
+						}
+						gaps = append(gaps, t.V)
+					}
+					if bad == "" && natoms != L {
+						bad = fmt.Sprintf("%d atoms, Length is %d", natoms, L)
+					}
+					if bad == "" {
+						for g, gv := range gaps {
+							any := false
+							for i := range cand[g] {
+								if cand[g][i] && (i >= len(calls) || calls[i] != gv) {
+									cand[g][i] = false
+								}
+								any = any || cand[g][i]
+							}
+							if !any {
+								bad = fmt.Sprintf("gap %d holds %q while the separator function returned, in order, %q: no single call of the function accounts for this gap here and in the earlier patterns (the gaps are %q)", g, gv, calls, gaps)
+								break
+							}
+						}
+					}
+					if bad != "" {
+						c.Violation(key+" structure", bad, rpg)
+						failed = true
+					}
+					c.Outcome("recorded " + strings.Join(gaps, "|"))
+				}
+				if failed {
+					continue
+				}
+				// the gaps must come from distinct calls
+				used := map[int]bool{}
+				var assign func(g int) bool
+				assign = func(g int) bool {
+					if g == len(cand) {
+						return true
+					}
+					for i, ok := range cand[g] {
+						if ok && !used[i] {
+							used[i] = true
+							if assign(g + 1) {
+								return true
+							}
+							used[i] = false
+						}
+					}
+					return false
+				}
+				if !assign(0) {
+					c.Violation(gkey+" shared", "two gaps of the password are fed by the same call of the separator function", rpg)
+				}
+			}
+		}
+	}
+}
+
+// c05Faults: the random source fails once, at read k, for every k of the
+// generation (and works again afterwards). Whatever Generate then does - panic,
+// error - a password it does return must still have the promised structure.
+func c05Faults(c *core.Ctx) {
+	for _, w := range []WLCase{
+		{Words: []string{"ab", "cd", "efg"}, Length: 3, Cap: "random", Sep: Sep{Kind: "SFDigits1"}},
+		{Words: []string{"ab", "cd", "efg"}, Length: 4, Cap: "one", Sep: Sep{Kind: "SFDigits2"}},
+		{Words: []string{"ab", "cd"}, Length: 3, Cap: "none", Sep: Sep{Kind: "SFSymbols"}},
+		{Words: []string{"ab", "cd"}, Length: 3, Cap: "all", Sep: Sep{Kind: "sf", Recipe: &ref.CharRecipe{Length: 2, Allow: ref.Digits}}},
+	} {
+		if !c.Mine() {
+			continue
+		}
+		r, err := w.build()
+		if err != nil {
+			continue
+		}
+		// reads of a fault-free generation
+		t0 := policyTape(func(b uint32, i int) uint32 { return uint32(i) })
+		install(t0)
+		runGen(r.Generate)
+		n := t0.Reads
+		for k := 1; k <= n+2; k++ {
+			for _, deliver := range []int{0, 2} {
+				t := policyTape(func(b uint32, i int) uint32 { return uint32(i) })
+				t.FaultAt, t.Fault = k, tape.Fault{Deliver: deliver, Err: io.ErrUnexpectedEOF}
+				install(t)
+				out := runGen(r.Generate)
+				c.Count("executions", 1)
+				c.Count("fault_runs", 1)
+				if out.HasPw {
+					c.Count("fault_runs_returning_a_password", 1)
+					if msg := c05Leaf(w, out); msg != "" {
+						c.Violation("fault "+mustJSON(w)+" structure", fmt.Sprintf("the source failed once at read %d (%d bytes delivered) and Generate returned %q: %s", k, deliver, out.Str, msg),
+							map[string]interface{}{"case": w, "fault_at_read": k, "deliver": deliver})
+						break
+					}
+				}
+			}
+		}
+	}
+	install(tape.New(&tape.Script{}))
+}
+
 func init() {
 	Register(&core.Check{
 		ID:    "C05",
@@ -267,10 +443,20 @@ func init() {
 	})
 	Replayers["C05"] = func(raw json.RawMessage) (string, bool) {
 		var rp struct {
-			Case WLCase `json:"case"`
+			Case     WLCase `json:"case"`
+			Recorded bool   `json:"recorded"`
+			FaultAt  int    `json:"fault_at_read"`
 		}
 		json.Unmarshal(raw, &rp)
 		c := &core.Ctx{ID: "C05", Tier: "quick", NShards: 1}
+		switch {
+		case rp.Recorded:
+			c05Recorded(c)
+			return fmt.Sprintf("recorded separator functions re-enumerated: %d violation(s) %v", c.R.NViol, c.R.Violations), c.R.NViol > 0
+		case rp.FaultAt > 0:
+			c05Faults(c)
+			return fmt.Sprintf("failing-source generations re-enumerated: %d violation(s) %v", c.R.NViol, c.R.Violations), c.R.NViol > 0
+		}
 		c05Case(c, rp.Case, CellOpt{DepthCut: 40, Fallback: 2, MaxMenu: 20000, MaxLeaves: 2000000, Dev: 3})
 		return fmt.Sprintf("case %s: %d violation(s) %v", mustJSON(rp.Case), c.R.NViol, c.R.Violations), c.R.NViol > 0
 	}
